@@ -5,7 +5,7 @@ import json, os, sys
 here = os.path.dirname(os.path.dirname(os.path.abspath(__file__)))
 props = [json.loads(l) for l in open(os.path.join(here, 'properties.jsonl'))]
 
-NOTE = ("Trusted: Go type checker and x/tools v0.50.0 (go/packages, go/cfg); sunlint's cut-reachability / condition-implication / "
+NOTE = ("Trusted: Go type checker and x/tools v0.50.0 (go/packages, go/cfg); sunlint's source normaliser (helper inlining, re-type-checked), path-sensitive cut-reachability / condition-implication / "
         "lockset / value-resolution code; the frozen tables in each rule; documented semantics of dependencies whose bodies are not analysed. "
         "Decides structural necessary conditions of the property on every control-flow path of the analysed functions, not the runtime behaviour itself.")
 
@@ -43,7 +43,7 @@ m = {
               "baseline_off_cmd": "cd /repo && go build ./... && go test -vet=off -count=1 -timeout 25m ./...",
               "source_commits": [], "add_only": True},
     "engines": [{"name": "sunlint", "path": "sunlint", "serves_properties": sorted(CLAIMS),
-                 "kind_free_text": "repository-specific static analyser: go/packages + go/types + go/cfg (cut-reachability, guard implication, finite-ordering evaluation, locksets, value flow, table agreement); never executes sunlight code"}],
+                 "kind_free_text": "repository-specific static analyser: go/packages + go/types + go/cfg (in-memory source normalisation that inlines helpers newer than the rules, path-sensitive cut-reachability, guard implication, finite-ordering evaluation, locksets, reaching-definition value flow, table agreement); never executes sunlight code"}],
     "checks": checks,
     "notes": "All claims are at level 'other': each check decides named structural necessary conditions (DESIGN.md section 3) on /repo's current source; what is not decided is listed per property there. Known findings: known_findings.json.",
     "not_applicable": na,
